@@ -202,4 +202,24 @@ def Ev.rtVal : Ev → Nat
 def windowMinRt (L : Nat) (evs : List TEv) (lo hi : Nat) : Nat :=
   ((evs.filter (fun e => lo ≤ e.1 - e.1 % L && e.1 - e.1 % L ≤ hi)).map (fun e => e.2.rtVal)).foldr min 60000
 
+/-- the concurrency value carried by an event (0 = none) -/
+def Ev.concVal : Ev → Nat
+  | .conc c => c
+  | _ => 0
+
+/-- Spec of `max_of_single_bucket`: the largest per-bucket total of `k` among the buckets, inside `[lo, hi]`, that hold an
+event (empty buckets count 0): for every event of the window, the total of its own bucket -/
+def windowMaxBucket (L : Nat) (evs : List TEv) (lo hi : Nat) (k : Kind) : Nat :=
+  ((evs.filter (fun e => lo ≤ e.1 - e.1 % L && e.1 - e.1 % L ≤ hi)).map
+    (fun e => windowSum L evs (e.1 - e.1 % L) (e.1 - e.1 % L) k)).foldr max 0
+
+/-- Spec of `max_concurrency`: the largest concurrency value recorded by an event whose bucket lies in `[lo, hi]` -/
+def windowMaxConc (L : Nat) (evs : List TEv) (lo hi : Nat) : Nat :=
+  ((evs.filter (fun e => lo ≤ e.1 - e.1 % L && e.1 - e.1 % L ≤ hi)).map (fun e => e.2.concVal)).foldr max 0
+
+/-- Spec of `count_with_time` (raw `is_deprecated` filter): Σ of `k`-amounts over the events whose bucket start is
+`≥ now - interval`, as far as the bucket has not been overwritten (`resident`) -/
+def windowSumIf (L : Nat) (evs : List TEv) (p : Nat → Bool) (k : Kind) : Nat :=
+  ((evs.filter (fun e => p (e.1 - e.1 % L))).map (fun e => e.2.amount k)).sum
+
 end Sentinel
